@@ -40,6 +40,9 @@ def closed_form(case, T):
     """Python mirror of Book!StepOp."""
     a1, a2, th = F(case['a1']), F(case['a2']), F(case['theta'])
     H, YD, B = F(case['H0']), F(case['YD0']), F(case['B0'])
+    if case.get('partial'):
+        # Book!OpeningBills: the bill holding the portfolio equation gives at the stated opening wealth and income
+        B = H * (F(case['l0']) + F(case['l1']) * F(case['r'][0])) - F(case['l2']) * YD
     q = a1 * (1 - th)
     out = []
     for k in range(1, T + 1):
@@ -96,7 +99,8 @@ def build_and_solve(case, T):
         cls = {'SIM': SIM, 'SIMEX1': SIMEX1, 'PC': PC}[model_name]
         # for a third of the cases (a function of the case) the builder first installs the book's own exogenous
         # paths and initial values; the paths and stocks stated afterwards must override them
-        book_first = int(core.digest(case), 16) % 3 == 0
+        book_first = int(core.digest(case), 16) % 3 == 0 and not case.get('partial')
+        # (with partial stocks the book's own statement of the opening bill holding would remain in force)
         builder = cls('C', use_book_exogenous=book_first)
         out['book_first'] = book_first
         m = builder.build_model()
@@ -119,7 +123,12 @@ def build_and_solve(case, T):
             hh.SetEquationRightHandSide('L2', lit(case['l2']))
             m.AddInitialCondition('HH', 'F', fl(case['H0']))
             m.AddInitialCondition('TRE', 'F', -fl(case['H0']))
-            m.AddInitialCondition('HH', 'DEM_DEP', fl(case['B0']))
+            if case.get('partial'):
+                # partial initial stocks (the style the chapter-4 builder documents): wealth and disposable income are
+                # stated, the split between bills and money at k=0 is left to the model's own portfolio equation
+                m.AddInitialCondition('HH', 'AfterTax', fl(case['YD0']))
+            else:
+                m.AddInitialCondition('HH', 'DEM_DEP', fl(case['B0']))
         else:
             c['GOV'].SetExogenous('DEM_GOOD', spelling(gpath))
             m.AddInitialCondition('HH', 'F', fl(case['H0']))
@@ -330,6 +339,9 @@ def random_case(rnd, model, T):
         case['B0'] = rat(F(case['H0']) * Fraction(rnd.randint(0, 9), 10))
     if model != 'SIMEX1':
         case['YD0'] = [0, 1]
+    if model == 'PC' and F(case['H0']) > 0 and rnd.random() < 0.4:
+        case['partial'] = True
+        case['YD0'] = rat(dec(1, 100, 1))
     return case
 
 
